@@ -1116,6 +1116,9 @@ func (f *Flow) Migrate(baseMediaURL string) ([]byte, error) {
 		ui.AddNode(ruleSet.UUID, nodeUIs[ruleSet.UUID])
 	}
 	for _, note := range f.Metadata.Notes {
+		if !note.HasValidPosition() {
+			return nil, errors.New("unable to migrate note with position out of range")
+		}
 		ui.AddSticky(note.Migrate())
 	}
 
